@@ -8,7 +8,7 @@ TRUSTED_BASE = [
 ]
 ASSUMPTIONS = [
     "A1 port model: getters succeed with the configured value or fail leaving outputs untouched; each allocation and each transmit may fail independently",
-    "A2 monotone clock; seconds and milliseconds derive from one instant; timestamps below 2^40 s",
+    "A2 clock: arbitrary between calls into the core, constant during one call; seconds and milliseconds derive from one instant; timestamps below 2^40 s",
     "A5 machine model x86-64 LP64 little-endian as laid out by goto-cc",
     "A7 CBMC / solver soundness; leaf helpers (htons, compareEthernetAddress, mac_equal...) verified inlined",
 ]
@@ -58,13 +58,52 @@ H("tab_nullargs", src="h_table.c", props=["C16"], unwindset=_UT, unwind=8)
 H("tab_create", src="h_table.c", props=["C16", "C18", "C19"], enforce=["session_table_create"], unwindset=_UT, unwind=8,
   must_reach=["end", "ok", "null"], safety_props=["C18"])
 
+# ---------------------------------------------------------------- C11 classifier
+H("derive", src="h_derive.c", props=["C11"], enforce=["derive_session_event"],
+  unwind=8, unwindset={"derive_session_event.0": 242, "h_derive.0": 242, "session_table_find.0": 17}, must_reach=["end", "reset", "present", "absent", "other"],
+  shards=6, bounded="station counts 0..240 (the property's quantifier range) by complete unwinding; counts above are the C01 known finding")
+H("derive_oob", src="h_derive.c", props=["C01"], enforce=["derive_session_event"], unwind=8,
+  unwindset={"derive_session_event.0": 100}, defines=["OOB_CAP=576"], no_native=False)
+
+# ---------------------------------------------------------------- C12 / C14 / C16 tick and mapping timers
+for n, f in [("mt_reset_charge", "mapping_reset_charge"), ("mt_on_charge", "mapping_on_charge"),
+             ("mt_check_charge", "mapping_check_charge_timeout"), ("mt_check_inactive", "mapping_check_inactive_timeout"),
+             ("mt_reset_inactive", "mapping_reset_inactive_timeout")]:
+    H(n, src="h_tick.c", props=["C14"], enforce=[f], unwind=8)
+H("tick", src="h_tick.c", props=["C12", "C13", "C14", "C16"], enforce=["automata_tick"],
+  replace=["session_table_clear", "session_table_update_complete_status", "session_table_is_empty", "session_table_all_complete",
+           "mapping_check_inactive_timeout", "mapping_check_charge_timeout", "mapping_reset_charge",
+           "band_update_stats", "band_choose_hello_time", "band_do_hello"],
+  unwind=8, unwindset={"switch_state_mapping.0": 130, "switch_state_enumeration.0": 130, "automata_tick.0": 17},
+  must_reach=["end", "inactive", "sweep", "sent", "block"], shards=12, object_bits=10)
+
+# ---------------------------------------------------------------- lltdBlock.c: emit path
+H("send_probe", src="h_emit.c", props=["C06", "C10", "C02", "C18", "C19", "C17"], enforce=["sendProbeMsg"], unwind=8,
+  must_reach=["end", "acked", "allocfail", "tx"], safety_props=["C18"])
+
+_EMIT_PROPS = ["C06", "C01", "C02", "C19", "C05", "C10"]
+H("parse_emit", src="h_emit.c", props=_EMIT_PROPS, enforce=["parseEmit"], replace=["sendProbeMsg"],
+  unwind=8, unwindset={"parseEmit.0": 40}, defines=["V_MTU_FIXED=576"],
+  bounded="frame object of exactly MTU bytes with MTU fixed to 576 (thorough: also 1500); descriptor loop completely unwound for that MTU")
+H("parse_emit_strict", src="h_emit.c", props=_EMIT_PROPS, enforce=["parseEmit"],
+  unwind=10, unwindset={"parseEmit.0": 10}, defines=["V_MTU_FIXED=576"], defines_quick=["V_STRICT_N=4"], defines_thorough=["V_STRICT_N=8"],
+  must_reach=["end", "tx"], timeout_thorough=3000,
+  bounded="exact-count / order / per-frame content clause for n = 1..4 descriptors (thorough: 1..8), MTU fixed to 576; the general harness covers every count for the bound clause")
+H("parse_emit_1500", src="h_emit.c", fn="h_parse_emit", props=_EMIT_PROPS, enforce=["parseEmit"],
+  replace=["sendProbeMsg"], unwind=8, unwindset={"parseEmit.0": 106}, defines=["V_MTU_FIXED=1500"],
+  thorough_only=True, timeout=3000, bounded="frame object of exactly 1500 bytes; descriptor loop completely unwound")
+
 PROPS = {
-    "C16": {"harnesses": ["tab_find", "tab_add", "tab_remove", "tab_update", "tab_queries", "tab_clear", "tab_create", "tab_nullargs"]},
-    "C14": {"harnesses": ["map_step"]},
+    "C06": {"harnesses": ["send_probe", "parse_emit", "parse_emit_strict", "parse_emit_1500"]},
+    "C10": {"harnesses": ["send_probe", "parse_emit_strict"]},
+    "C11": {"harnesses": ["derive"]},
+    "C16": {"harnesses": ["tab_find", "tab_add", "tab_remove", "tab_update", "tab_queries", "tab_clear", "tab_create", "tab_nullargs", "tick"]},
+    "C14": {"harnesses": ["map_step", "tick", "mt_reset_charge", "mt_on_charge", "mt_check_charge", "mt_check_inactive", "mt_reset_inactive"]},
+    "C12": {"harnesses": ["tick", "enum_step"]},
     "C15": {"harnesses": ["sess_step"]},
     "C18": {"harnesses": ["ctor_mapping", "ctor_enum", "ctor_session", "tab_create"]},
     "C13": {
-        "harnesses": ["band_update", "band_choose", "band_dohello", "band_heard", "band_init", "c13_monotone"],
+        "harnesses": ["band_update", "band_choose", "band_dohello", "band_heard", "band_init", "c13_monotone", "tick"],
         "explanation": "band_* functions enforced against contracts whose postconditions are the closed forms of "
                        "min(NMAX, ALPHA*r^2) and max(6, ceil(80*Ni/30)); monotonicity is a lemma over those spec functions",
     },
